@@ -141,8 +141,18 @@ class Shared:
             else:
                 clf = (lambda k, h: (lambda e: Classification(klass=k, retry_after_s=h)))(klass, None if hint == "none" else float(hint))
             late = p.get("attach") == "attr"  # the shared budget is attached by attribute assignment after construction
-            pol = cls(classifier=clf, result_classifier=(lambda c: (lambda r: c(r) if r == "bad" else None))(clf), strategy=(lambda d: (lambda c: d))(p["delay"]), budget=None if late else self.budget,
-                      max_attempts=p["max_attempts"], deadline_s=p.get("deadline", 100000.0), max_unknown_attempts=None)
+            rcl = (lambda c: (lambda r: c(r) if r == "bad" else None))(clf)
+            strat = (lambda d: (lambda c: d))(p["delay"])
+            if p.get("attach") == "config":
+                # the bundle route: each of the four from_config twins must carry the budget over
+                from redress import RetryConfig
+
+                conf = RetryConfig(deadline_s=p.get("deadline", 100000.0), max_attempts=p["max_attempts"], max_unknown_attempts=None, default_strategy=strat, result_classifier=rcl, budget=self.budget)
+                pol = cls.from_config(conf, classifier=clf)
+                ctx.cnt["policies_built_by:" + cls.__name__ + ".from_config"] += 1
+            else:
+                pol = cls(classifier=clf, result_classifier=rcl, strategy=strat, budget=None if late else self.budget,
+                          max_attempts=p["max_attempts"], deadline_s=p.get("deadline", 100000.0), max_unknown_attempts=None)
             if late:
                 pol.budget = self.budget
             if kind == "policy":
@@ -329,7 +339,7 @@ def gen_shared(rng):
     npol = rng.randint(2, 4)
     pols = [{"async": rng.random() < 0.5, "delay": rng.choice([0.0, G, w / 4, w / 2, w - G, w, w + G]), "max_attempts": rng.randint(2, 5),
              "hint": rng.choice(["bare", "bare", "none", "0.0", "0.5", "30.0"]), "klass": rng.choice(["TRANSIENT", "RATE_LIMIT", "SERVER_ERROR", "UNKNOWN", "CONCURRENCY"]),
-             "kind": rng.choice(["retry", "retry", "rp", "policy"]), "attach": rng.choice(["ctor", "ctor", "attr"]), "deadline": rng.choice([100000.0, 100000.0, w, 2 * w, w / 2])} for _ in range(npol)]
+             "kind": rng.choice(["retry", "retry", "rp", "policy"]), "attach": rng.choice(["ctor", "ctor", "attr", "config"]), "deadline": rng.choice([100000.0, 100000.0, w, 2 * w, w / 2])} for _ in range(npol)]
     calls = [{"policy": rng.randrange(npol), "gap": rng.choice([0.0, 0.0, G, w / 2, w - G, w, w + G]), "dur": rng.choice([0.0, G, w / 4]), "batch": rng.randint(1, 3), "by_result": rng.random() < 0.3,
               "abort_at": rng.randint(0, 6) if rng.random() < 0.25 else None, "early_sleeper": rng.random() < 0.3} for _ in range(rng.randint(3, 10))]
     return {"max": mx, "window": w, "policies": pols, "calls": calls, "falsy": rng.random() < 0.25}
@@ -361,6 +371,15 @@ def work(ctx, tier):
             mx = rng.randint(0, 6)
             w = rng.choice([1.0, 2.0, 0.5, 10.0])
             alpha = alphabet(w) + [("consume", 1)] * 3 + [("adv", w / 2), ("adv", 3 * w)]
+            if k % 5 == 2:
+                # instants that are not multiples of the grid: a request a fraction of a millisecond before / after a token's expiry,
+                # and (legal) windows shorter than a millisecond
+                e = rng.choice([2.0**-11, 2.0**-13, 2.0**-16])
+                if k % 10 == 2:
+                    w = rng.choice([2.0**-11, 2.0**-12, 0.0007])
+                    e = w / rng.choice([4.0, 8.0, 64.0])
+                alpha = [("consume", 1)] * 4 + [("consume", 2), ("consume", 3), ("remaining",), ("adv", 0.0), ("adv", w), ("adv", e), ("adv", w - e), ("adv", w + e), ("adv", max(w - 3 * e, 0.0)), ("adv", 0.3)]
+                ctx.cnt["histories_with_off_grid_instants"] += 1
             if k % 4 == 3:
                 alpha = alpha + [("setmax", rng.randint(0, 8)), ("setmax", mx + rng.randint(1, 4))]
             ops = rng.choices(alpha, k=50)
@@ -383,6 +402,7 @@ def work(ctx, tier):
 
 def conclude(ctx):
     floors = {
+        "histories_with_off_grid_instants": (ctx.cnt["histories_with_off_grid_instants"], 100),
         "op:limit_changed_on_a_live_budget": (ctx.cnt["op:limit_changed_on_a_live_budget"], 200),
         "grants": (ctx.cnt["grants"], 5000),
         "refusals": (ctx.cnt["refusals"], 5000),
